@@ -120,6 +120,10 @@ def replay(beh, tier="quick", seed=0, targets=None, check_rows=True):
                 res["evals"] += 1
                 obs = to_linear(out, sem)
                 want = expected_array(exp, ridx)
+                if not exp["scope"] and len(ridx) == 1 and obs.ndim == 2:
+                    # documented convention: a circuit with empty scope drops a batch dimension
+                    # of size one and returns (outputs, units)
+                    obs = obs[None]
                 if obs.shape != want.shape:
                     res["failures"].append({"kind": "shape", "flags": list(flags), "pool": i,
                                             "op": ops[i], "batch": bname, "B": len(ridx),
